@@ -143,22 +143,33 @@ def read_report(text):
     return rows
 
 
-def read_archive(path):
-    """{topology_id: (table text, newick text)}; asserts the documented member layout."""
+def read_archive(path, problems=None):
+    """{topology_id: (table text, newick text)}; departures from the documented member layout (a topology id archived
+    twice, an id with half its files, a member of another name) go to `problems`: they are what the property forbids
+    (report row and archive member must name the same tree), so they are judged, not raised."""
     out = {}
+    problems = [] if problems is None else problems
     with tarfile.open(path) as tf:
         for m in tf.getmembers():
-            d, f = m.name.split("/")
+            d, _, f = m.name.partition("/")
             txt = tf.extractfile(m).read().decode()
             slot = out.setdefault(d, {})
             if f == d + "_results_table.tsv":
-                assert "table" not in slot
+                if "table" in slot:
+                    problems.append(f"archive holds two results tables for {d}")
+                    if slot["table"] != txt:
+                        problems.append(f"the two results tables archived as {d} differ")
                 slot["table"] = txt
             elif f == d + ".nwk":
-                assert "nwk" not in slot
+                if "nwk" in slot:
+                    problems.append(f"archive holds two newick files for {d}")
                 slot["nwk"] = txt
             else:
-                raise AssertionError("unexpected archive member " + m.name)
+                problems.append("unexpected archive member " + m.name)
+    for d in list(out):
+        if set(out[d]) != {"table", "nwk"}:
+            problems.append(f"archive entry {d} lacks " + ", ".join(sorted({"table", "nwk"} - set(out[d]))))
+            del out[d]
     return out
 
 
@@ -335,6 +346,7 @@ class Cmd:
         from phyclone import cli
 
         self.k += 1
+        self.archive_problems = []
         rep, arc = os.path.join(self.tmp, f"rep{self.k}.tsv"), os.path.join(self.tmp, f"arc{self.k}.tar.gz")
         args = ["-i", self.trace, "-o", rep]
         if archive:
@@ -347,7 +359,7 @@ class Cmd:
         rows = read_report(open(rep).read())
         members = None
         if archive:
-            members = {d: key_from_outputs(v["table"], v["nwk"]) for d, v in read_archive(arc).items()}
+            members = {d: key_from_outputs(v["table"], v["nwk"]) for d, v in read_archive(arc, self.archive_problems).items()}
         return rows, members, None
 
 
@@ -480,6 +492,8 @@ def run_checks(ctx, case, results, meta, tops, tmp):
     runs = [(False, None)] + [(True, t) for t in tops]
     for archive, top in runs:
         rows, members, err = cmd.topo(archive, top)
+        for pr in getattr(cmd, "archive_problems", []):
+            ctx.oracle_fail(case, f"--top-trees {top}: {pr}", "create_topologies_archive", "archive-layout")
         req = {"op": "trace", "cmd": "topo", "chains": chains_json, "archive": archive,
                "top": sys.maxsize if top is None else top, "maxsize": sys.maxsize}
         ans, merr = ask_or_reject(ctx, req)
